@@ -144,6 +144,53 @@ def gen_ea_case(ctx, r, nops):
     return "ea n " + " ".join(ops)
 
 
+def gen_ea_tiny_case(ctx, r, nops):
+    """Arrays of 0..3 bytes (alloc 1..3 is the range in which resize() never frees the buffer itself:
+    alloc/4 == 0), emptied and truncated, then used again."""
+    ops = ["init:%x:%x:%02x" % (r.choice([0, 0, 1, 2, 3]), 1, r.randrange(256))]
+    size = 0
+    for _ in range(nops):
+        k = r.randrange(100)
+        reclen = r.choice([1, 1, 1, 2, 3])
+        if k < 22:
+            n = r.choice([1, 1, 2, 3]) // reclen or 1
+            ops.append("app:%x:%x:%s" % (n, reclen, hx(rb(r, n * reclen))))
+            size += n * reclen
+            ctx.count("ea.tiny.append")
+        elif k < 40:
+            ops.append("shr:%x:%x" % (r.choice([size, size, size + 1, 1, 2]), 1))
+            ctx.count("ea.tiny.shrink-to-empty")
+            size = 0
+        elif k < 58:
+            ops.append("trunc")
+            ctx.count("ea.tiny.truncate")
+        elif k < 68:
+            n = r.choice([0, 0, 1, 2, 3])
+            ops.append("res:%x:%x:%02x" % (n, 1, r.randrange(256)))
+            size = n
+            ctx.count("ea.tiny.resize")
+        elif k < 80:
+            ops.append("get:%x:%x" % (r.randrange(4), reclen))
+        elif k < 86:
+            ops.append("size:%x" % reclen)
+        elif k < 92:
+            ops.append("dup:%x" % reclen)
+            ctx.count("ea.tiny.exportdup")
+        elif k < 96:
+            ops.append("exp:%x" % reclen)
+            ops.append("init:%x:%x:%02x" % (r.choice([0, 0, 1, 2, 3]), 1, r.randrange(256)))
+            size = 0
+            ctx.count("ea.tiny.export")
+    ops.append("free")
+    return "ea n " + " ".join(ops)
+
+
+def gen_ea_mixed(ctx, r, nops):
+    if r.randrange(4) == 0:
+        return gen_ea_tiny_case(ctx, r, min(nops, 25))
+    return gen_ea_case(ctx, r, nops)
+
+
 def gen_eq_case(ctx, r, nops):
     reclen = r.choice([1, 2, 3, 4, 8, 8, 13])
     ops = ["init:%x" % reclen]
@@ -502,9 +549,10 @@ def sub_kind(sub):
 
 
 def check_ds_elasticarray(ctx):
-    run_kind(ctx, "elasticarray", gen_ea_case, 1500, 40000, 4, 45,
+    run_kind(ctx, "elasticarray", gen_ea_mixed, 1500, 40000, 4, 45,
              "random init/append/resize/shrink/truncate/get/getsize/export/exportdup/free programs, mixed record "
-             "sizes, size-overflowing products, sizes aimed at alloc, alloc+1 and alloc/4-1..alloc/4+1; compared "
+             "sizes, size-overflowing products, sizes aimed at alloc, alloc+1 and alloc/4-1..alloc/4+1, one case in four on arrays of 0..3 bytes "
+             "(emptied, truncated and used again: the range where resize() never frees the buffer); compared "
              "after every op: result, getsize, all bytes through get, storage block size, allocation events; "
              "storage bound alloc/4 <= size evaluated (extracted spec predicate) on the implementation's own "
              "sizes; non-trivial = distinct (final observations, final allocation events)")
@@ -597,7 +645,7 @@ def check_ds_allocfail(ctx):
         base = []
         nb = ctx.n(150, 600)
         for _ in range(nb):
-            base.append(gen_ea_case(ctx, r, r.randrange(4, 30)))
+            base.append(gen_ea_mixed(ctx, r, r.randrange(4, 30)))
             base.append(gen_eq_case(ctx, r, r.randrange(4, 60)))
             base.append(gen_spm_case(ctx, r, r.randrange(4, 50)))
         for _ in range(nb // 2):
